@@ -1,9 +1,18 @@
 ------------------------------- MODULE MCInterval -------------------------------
 (* C40: every insertion history over the points 0..MaxP up to MaxLen inserts (TLC BFS), or random
    longer ones (tlc -simulate).  `obs` carries the naive model's answer after EVERY insert; states
-   of length ExportLen are exported as replay cases for harness/interval. *)
+   of length ExportLen are exported as replay cases for harness/interval.
+
+   "Stacked" family (StackMax > 0): k \in 1..StackMax copies of one interval (piles values on one
+   entry, i.e. builds value lists with spare capacity) followed by every sequence of exactly
+   MaxFree further inserts; reaches 6-insert shapes such as [0,2]x3,[1,1],[0,0],[2,2] (split an
+   entry that holds several values, then touch both leftovers) without enumerating |Ivs|^6.
+   RepeatWeight > 0 (simulation only): every earlier interval is offered RepeatWeight more times as
+   successor, which biases the random walk towards re-inserting intervals. *)
 EXTENDS Interval, TLC, Json
 CONSTANTS MaxP, MaxLen, ExportLen,
+          StackMax, MaxFree,      \* stacked family (StackMax = 0: off)
+          RepeatWeight,           \* simulation bias (0: off)
           Only        \* {} = explore everything; else a set of histories <<<<lo,hi>>,...>> to replay
 VARIABLES hist, obs
 vars == <<hist, obs>>
@@ -21,14 +30,21 @@ Observe(h, iv) ==
       get     |-> [k \in 1..(MaxP + 3) |-> Get(h2, k - 2)]]
 
 HistT(h)   == [i \in 1..Len(h) |-> <<h[i].lo, h[i].hi>>]
-Allowed(h) == Only = {} \/ \E o \in Only : Len(h) <= Len(o) /\ SubSeq(o, 1, Len(h)) = HistT(h)
-Wanted     == IF Only = {} THEN Len(hist) = ExportLen ELSE HistT(hist) \in Only
+AllEq(h, k)  == \A i \in 1..k : h[i] = h[1]
+StackOK(h)   == Len(h) = 0 \/ \E k \in 1..StackMax : k <= Len(h) /\ AllEq(h, k) /\ Len(h) - k <= MaxFree
+StackLeaf(h) == Len(h) > MaxFree /\ Len(h) - MaxFree <= StackMax /\ AllEq(h, Len(h) - MaxFree)
+Allowed(h) == IF Only # {} THEN \E o \in Only : Len(h) <= Len(o) /\ SubSeq(o, 1, Len(h)) = HistT(h)
+              ELSE IF StackMax > 0 THEN StackOK(h) ELSE TRUE
+Wanted     == IF Only # {} THEN HistT(hist) \in Only
+              ELSE IF StackMax > 0 THEN StackLeaf(hist) ELSE Len(hist) = ExportLen
 
+Step(iv) == /\ hist' = Append(hist, iv)
+            /\ obs'  = Append(obs, Observe(hist, iv))
+            /\ Allowed(hist')
 Init == hist = <<>> /\ obs = <<>>
 Next == /\ Len(hist) < MaxLen
-        /\ \E iv \in Ivs : /\ hist' = Append(hist, iv)
-                           /\ obs'  = Append(obs, Observe(hist, iv))
-        /\ Allowed(hist')
+        /\ \/ \E iv \in Ivs : Step(iv)
+           \/ \E w \in 1..RepeatWeight, i \in 1..Len(hist) : Step(hist[i])
 Spec == Init /\ [][Next]_vars
 
 Case == [maxp   |-> MaxP,
